@@ -117,6 +117,8 @@ type runner struct {
 	trRes    []string
 	hmu      sync.Mutex // guards opsDone (read by listener and sender goroutines when they report)
 	aborted  atomic.Bool
+	slow     atomic.Bool  // listeners dawdle (set while sends overlap a stop call)
+	calls    atomic.Int64 // listener calls so far
 	watchdog bool
 }
 
@@ -185,10 +187,15 @@ func errClass(err error) string {
 
 func (r *runner) listener(k int) func([]byte, int32) {
 	return func(b []byte, ms int32) {
+		// now and then the listener is slow, so that a stop call meets a callback that is under way: the stop
+		// function must then wait for it (the driver calls listeners under its read lock)
+		if r.slow.Load() && r.calls.Add(1)%5 == 0 {
+			time.Sleep(150 * time.Microsecond)
+		}
 		r.mu.Lock()
 		defer r.mu.Unlock()
 		if r.stopped[k] {
-			r.violate("delivery", fmt.Sprintf("listener %d was called (% X) after its stop function had returned", k, b))
+			r.violate("delivery", fmt.Sprintf("listener %d was called or still being called (% X) after its stop function had returned", k, b))
 			return
 		}
 		if len(b) != 3 || b[0]&0xF0 != 0x90 || b[1] > 127 || b[2] > 127 {
@@ -414,8 +421,10 @@ func (r *runner) step(op string, g *rng) bool {
 		ok := true
 		if overlap {
 			ok = r.call("concurrent sends + stop + Listen", func() {
+				r.slow.Store(true)
+				defer r.slow.Store(false)
 				close(started)
-				time.Sleep(time.Duration(g.intn(300)) * time.Microsecond)
+				time.Sleep(time.Duration(g.intn(600)) * time.Microsecond)
 				kk := len(r.stops) - 1
 				r.stops[kk]()
 				r.mu.Lock()
@@ -460,7 +469,7 @@ func (r *runner) step(op string, g *rng) bool {
 // genOp: the next call of a random protocol-respecting history
 func (r *runner) genOp(g *rng) string {
 	for {
-		switch k := g.intn(24); {
+		switch k := g.intn(27); {
 		case k < 2:
 			return "oi"
 		case k < 4:
@@ -482,9 +491,9 @@ func (r *runner) genOp(g *rng) string {
 			if len(r.stops) > 0 {
 				return "s"
 			}
-		case k < 17:
+		case k < 16:
 			return "x"
-		case k < 22:
+		case k < 21:
 			return fmt.Sprintf("b%dx%d", g.rng(2, 4), g.rng(3, 30))
 		default:
 			if r.active >= 0 && r.inOpen && r.outOpen {
